@@ -164,6 +164,15 @@ func (r *Recorder) Sink(conn int, role string, ev string, kv []interface{}) {
 		k, _ := kv[i].(string)
 		if k == "id" {
 			e[k] = jsonrpc.VerifID(kv[i+1])
+		} else if d, isDur := kv[i+1].(int64); isDur && (k == "d" || k == "min" || k == "max") {
+			us := d / 1000 // nanoseconds -> microseconds (TLC integers are 32 bit)
+			if us > 2000000000 {
+				us = 2000000000
+			}
+			if d < 0 {
+				us = -1
+			}
+			e[k] = us
 		} else {
 			e[k] = hookVal(kv[i+1])
 		}
